@@ -217,7 +217,7 @@ func (e *exprEnv) ident(name string) (cval, error) {
 	// zero-arg event
 	if B.events != nil {
 		if args, ok := B.events.args[name]; ok && len(args) == 0 {
-			return cval{term: q("ev:" + name), sort: "Event"}, nil
+			return cval{term: "ev_" + name, sort: "Event"}, nil
 		}
 	}
 	if sf, ok := e.f.t.DB.Specs[name]; ok && len(sf.Args) == 0 {
@@ -780,6 +780,72 @@ func (e *exprEnv) call(n *ast.CallExpr) (cval, error) {
 			ks := B.sortOf(mt.Key())
 			ps := arrOf("(Array " + ks + " Bool)")
 			return cval{term: fmt.Sprintf("(and (not (= %s 0)) (select (select %s %s) %s))", m.term, t.get(e.st, mapPArr(mt), ps), m.term, k.term), typ: boolT}, nil
+		case "callres", "called":
+			// callres(Callee[, ordinal[, resultIndex]]) / called(Callee[, ordinal]): the result / reach condition of a call in this function
+			id, ok := n.Args[0].(*ast.Ident)
+			if !ok {
+				return cval{}, fmt.Errorf("%s(CalleeName, ...)", name)
+			}
+			ord, ridx := 0, 0
+			if len(n.Args) > 1 {
+				if bl, ok := n.Args[1].(*ast.BasicLit); ok {
+					ord, _ = strconv.Atoi(bl.Value)
+				}
+			}
+			if len(n.Args) > 2 {
+				if bl, ok := n.Args[2].(*ast.BasicLit); ok {
+					ridx, _ = strconv.Atoi(bl.Value)
+				}
+			}
+			top := e.f
+			recs := top.callLog[id.Name]
+			if ord >= len(recs) {
+				// the call has not been reached on any path so far (or does not exist): never called
+				if name == "called" {
+					return cval{term: "false", typ: boolT}, nil
+				}
+				return cval{}, fmt.Errorf("callres(%s, %d): no such call before this point", id.Name, ord)
+			}
+			rec := recs[ord]
+			if name == "called" {
+				return cval{term: rec.cond, typ: boolT}, nil
+			}
+			v := rec.val
+			if v == nil {
+				return cval{}, fmt.Errorf("callres(%s): call has no result", id.Name)
+			}
+			var callee *types.Signature
+			_ = callee
+			if v.tuple != nil {
+				if ridx >= len(v.tuple) {
+					return cval{}, fmt.Errorf("callres(%s): result index", id.Name)
+				}
+				v = v.tuple[ridx]
+			}
+			tp := top.callResType(id.Name, ord, ridx)
+			return cval{term: v.term, typ: tp}, nil
+		case "evarg":
+			v, err := e.expr(n.Args[0])
+			if err != nil {
+				return cval{}, err
+			}
+			id, ok := n.Args[1].(*ast.Ident)
+			if !ok {
+				return cval{}, fmt.Errorf("evarg(e, EventName, index)")
+			}
+			sorts, ok := B.events.args[id.Name]
+			if !ok {
+				return cval{}, fmt.Errorf("unknown event %s", id.Name)
+			}
+			bl, ok := n.Args[2].(*ast.BasicLit)
+			if !ok {
+				return cval{}, fmt.Errorf("evarg index must be a literal")
+			}
+			ai, _ := strconv.Atoi(bl.Value)
+			if ai >= len(sorts) {
+				return cval{}, fmt.Errorf("event %s has %d arguments", id.Name, len(sorts))
+			}
+			return cval{term: fmt.Sprintf("(%s %s)", fmt.Sprintf("ev_%s_%d", id.Name, ai), v.term), typ: sortType(sorts[ai]), sort: sorts[ai]}, nil
 		case "isev":
 			v, err := e.expr(n.Args[0])
 			if err != nil {
@@ -792,7 +858,7 @@ func (e *exprEnv) call(n *ast.CallExpr) (cval, error) {
 			if _, ok := B.events.args[id.Name]; !ok {
 				return cval{}, fmt.Errorf("unknown event %s", id.Name)
 			}
-			return cval{term: fmt.Sprintf("((_ is %s) %s)", q("ev:"+id.Name), v.term), typ: boolT}, nil
+			return cval{term: fmt.Sprintf("((_ is %s) %s)", "ev_"+id.Name, v.term), typ: boolT}, nil
 		case "errmsg":
 			v, err := e.expr(n.Args[0])
 			if err != nil {
@@ -1059,7 +1125,7 @@ func (e *exprEnv) eventTermX(name string, args []ast.Expr) (string, error) {
 		return "", fmt.Errorf("event %s: %d args, want %d", name, len(args), len(sorts))
 	}
 	if len(args) == 0 {
-		return q("ev:" + name), nil
+		return "ev_" + name, nil
 	}
 	var as []string
 	for _, a := range args {
@@ -1069,7 +1135,7 @@ func (e *exprEnv) eventTermX(name string, args []ast.Expr) (string, error) {
 		}
 		as = append(as, v.term)
 	}
-	return "(" + q("ev:"+name) + " " + strings.Join(as, " ") + ")", nil
+	return "(" + "ev_"+name + " " + strings.Join(as, " ") + ")", nil
 }
 
 // modTarget describes one `modifies` entry.
@@ -1259,3 +1325,35 @@ func (t *Trans) modifiesArrays(fc *FuncContract, plan callPlan, m string) (map[s
 }
 
 var _ = ssa.Function{}
+
+
+// callResType finds the static type of a logged call result.
+func (f *frame) callResType(name string, ord, ridx int) types.Type {
+	k := 0
+	for _, b := range f.fn.Blocks {
+		for _, in := range b.Instrs {
+			c, ok := in.(*ssa.Call)
+			if !ok {
+				continue
+			}
+			n := ""
+			if c.Call.IsInvoke() {
+				n = c.Call.Method.Name()
+			} else if fn := c.Call.StaticCallee(); fn != nil {
+				n = fn.Name()
+			}
+			if n != name {
+				continue
+			}
+			_ = k
+			if tup, ok := c.Type().(*types.Tuple); ok {
+				if ridx < tup.Len() {
+					return tup.At(ridx).Type()
+				}
+				return nil
+			}
+			return c.Type()
+		}
+	}
+	return nil
+}
